@@ -548,11 +548,17 @@ func (o *operation) handle() {
 	if serverRequestBuilder != nil {
 		var hasBody bool
 		var err error
-		o.request.URL.Path, o.request.URL.RawQuery, o.request.Method, hasBody, err =
+		var escapedPath string
+		escapedPath, o.request.URL.RawQuery, o.request.Method, hasBody, err =
 			serverRequestBuilder.requestLine(o, reqMsg.msg)
 		if err != nil {
 			o.reportError(err)
 			return
+		}
+		// The request line builder returns the path in escaped form.
+		o.request.URL.Path, o.request.URL.RawPath = escapedPath, ""
+		if unescaped, err := url.PathUnescape(escapedPath); err == nil && unescaped != escapedPath {
+			o.request.URL.Path, o.request.URL.RawPath = unescaped, escapedPath
 		}
 		skipBody = !hasBody
 		// Recompute if the server needs to prep the request, now that we've modified
@@ -563,6 +569,7 @@ func (o *operation) handle() {
 	} else {
 		// if no request line builder, use simple request layout
 		o.request.URL.Path = o.methodConf.methodPath
+		o.request.URL.RawPath = ""
 		o.request.URL.RawQuery = ""
 		o.request.Method = http.MethodPost
 	}
